@@ -43,6 +43,7 @@ EvalX(e, env) ==
   ELSE Eval(e, env)
 
 MixM == L(<<L(<<S(<<112>>), I(1)>>), L(<<S(<<114>>), I(2)>>)>>)       \* [["p" 1] ["r" 2]]
+Rank3 == L(<<L(<<Ints(<<1, 2>>), Ints(<<3, 4>>)>>), L(<<Ints(<<5, 6>>), Ints(<<7, 8>>)>>)>>)       \* [[[1 2] [3 4]] [[5 6] [7 8]]]
 Stmts == <<
   Asg("a", Lit(Ints(<<1, 2, 3>>))), Asg("a", Lit(Ints(<<4, 5, 6, 7>>))), Asg("b", Var("a")),
   Asg("c", Dy(":=", Var("a"), Pair(9, 0))), Asg("a", Dy(":=", Var("a"), Pair(8, 1))),
@@ -60,6 +61,9 @@ Stmts == <<
   Asg("a", Lit(MixM)), Asg("b", Dy(":-", Var("a"), Lit(L(<<Y(<<122>>), I(0), I(1)>>)))),
   Asg("c", Dy(":-", Var("a"), Lit(L(<<S(<<113, 113>>), I(1), I(0)>>)))), Asg("e", Dy(":-", Var("e"), Lit(L(<<Y(<<122>>), I(0), I(0)>>)))),
   Asg("d", Dy("_", Lit(I(1)), Var("a"))), Asg("d", Dy(":-", Var("d"), Lit(L(<<S(<<119>>), I(0), I(0)>>)))),
+  \* a rank-3 array amended in depth (three indices) with a number, and a sub-array taken from it earlier
+  Asg("a", Lit(Rank3)), Asg("c", Dy(":-", Var("a"), Lit(Ints(<<9, 1, 0, 1>>)))), Asg("d", Dy("@", Var("a"), Lit(I(1)))),
+  Asg("a", Dy(":-", Var("a"), Lit(Ints(<<8, 0, 1, 0>>)))),
   \* module switches: the SAME statement texts are evaluated before, inside and after a module
   [k |-> "modin"], [k |-> "modout"], Asg("a", Dy("+", Var("a"), Lit(I(1)))), Ex(Var("a")),
   \* a statement that FAILS inside a user function with a declared local named like a global (e1::{[a];a::[10 20 30];a@x} in the
